@@ -113,6 +113,46 @@ theorem call_ret_roundtrip (s s1 : Machine) (hm : s.mem.WF) (hno : NoOverlap s.m
   have := push_pop_lifo s s1 8 (by simp) s.regs.rip hm hno h v' (by simpa [popAddr] using hr)
   exact this.1
 
+/-! ## through the dispatch: `push ra ; pop rc` -/
+
+theorem lookup_push64 : lookup "Push_r64" = some (.pushR 8) := by decide +kernel
+theorem lookup_pop64 : lookup "Pop_r64" = some (.popR 8) := by decide +kernel
+
+/-- **`push ra` followed by `pop rc`, from decoded instructions**: for every machine satisfying the memory invariants,
+    every RSP (wrap-around included) and every pair of registers with rc ≠ RSP, whenever both instructions succeed rc
+    holds what ra held and RSP is back where it was. -/
+theorem push_then_pop (hh : HasHooks) (i1 i2 : Instr) (s s1 s2 : Machine) (ra rc : Fin 16)
+    (hm : s.mem.WF) (hno : NoOverlap s.mem)
+    (hc1 : i1.code = "Push_r64") (hop1 : i1.op0 = some (.reg (.reg (.g64 ra))))
+    (hc2 : i2.code = "Pop_r64") (hop2 : i2.op0 = some (.reg (.reg (.g64 rc)))) (hrc : rc ≠ RSP)
+    (h1 : exec hh i1 s = .ok s1) (h2 : exec hh i2 s1 = .ok s2) :
+    s2.regs.get rc = s.regs.get ra ∧ s2.regs.get RSP = s.regs.get RSP := by
+  have hrow1 : lookup i1.code = some (.pushR 8) := by rw [hc1]; exact lookup_push64
+  have hrow2 : lookup i2.code = some (.popR 8) := by rw [hc2]; exact lookup_pop64
+  -- the push
+  unfold exec at h1
+  simp only [hrow1, hop1, RegSpec.toSupported, readReg, regReadW, regRead64] at h1
+  have hp : pushVal s 8 (s.regs.get ra) = .ok s1 := by
+    cases hpv : pushVal s 8 (s.regs.get ra) with
+    | err => simp [hpv, ExecRes.ofOut] at h1
+    | panic => simp [hpv, ExecRes.ofOut] at h1
+    | ok x => simp only [hpv, ExecRes.ofOut, ExecRes.ok.injEq] at h1; rw [h1]
+  -- the pop
+  unfold exec at h2
+  simp only [hrow2, hop2, RegSpec.toSupported] at h2
+  cases hr : readMem s1 (8 * 8) (s1.regs.get RSP + BitVec.ofNat 64 8) with
+  | err => simp [hr, ExecRes.ofOut] at h2
+  | panic => simp [hr, ExecRes.ofOut] at h2
+  | ok v =>
+    simp only [hr, writeReg, regWriteW, regWrite64, ExecRes.ofOut, ExecRes.ok.injEq] at h2
+    obtain ⟨hv, haddr⟩ := push_pop_lifo s s1 8 (by simp) (s.regs.get ra) hm hno hp v (by simpa [popAddr] using hr)
+    subst h2
+    simp only [popAddr] at haddr
+    constructor
+    · simp [hv]
+    · rw [Regs.get_set_ne _ _ _ _ hrc]
+      simp [haddr]
+
 /-- **RET at the initial stack top** is the normal-finish signal; below it RET never "finishes". -/
 theorem ret_top_level (s : Machine) (i : Instr) :
     (execRet s i = .finish ↔ (s.regs.get RSP + 8).toNat = s.stackTop) := by
